@@ -70,7 +70,7 @@ mobility_from_composition_set called with the object's own callables):
                      filter); ALL clauses above are evaluated for it - curvature, finite differences and reference
                      Hessian from getLocalEq(..., [p]) of that phase, tracer = R T M with that phase's mobility model,
                      Darken, interdiff_tracer_consistency, flux_sum_zero - and in addition both public results must equal
-                     those of an object that lists only this phase (default call), 1e-9 (measured 5e-12; same corrections
+                     those of an object that lists only this phase (default call), 1e-6 (two separate solver runs: worst seen 9e-10; same corrections
                      are set on both objects).
   Mobility corrections: two thirds of the cases on mobility databases run after therm.setMobilityCorrection - uniform
   ('all', f) or on one/two elements (reference element included in ~half of them), f log-uniform in 0.2..8 - and every
@@ -152,7 +152,8 @@ H_REL_SETS = [[3.2e-2, 1.6e-2, 8e-3], [2.6e-2, 1.3e-2, 6.5e-3], [2.9e-2, 1.45e-2
 TOL_FD_PAIR = 1e-6     # agreement of the Richardson values of two independent step-size sets
 CORR_MODES = ['none', 'all', 'elements']   # setMobilityCorrection: untouched / ('all', f) / one or two elements
 CORR_RANGE = (0.2, 8.0)                    # f log-uniform
-TOL_PHASE_REF = 1e-9                       # phase= argument vs object listing only that phase (same arithmetic)
+TOL_PHASE_REF = 1e-6                       # phase= argument vs object listing only that phase: two separate solver runs
+                                           # (noise class; worst seen 8.9e-10 over quick seeds 0,1,2,3,7; break effect 1.4-2.3x)
 TOL_CONSIST = 1e-6                         # interdiffusivity vs tracer diffusivities x analytic curvature
 NT_XMIN = 1e-4
 
